@@ -30,14 +30,16 @@ fn one(out: &mut Out, fi: usize, data: &[u8], w: u32, h: u32, rect: (u32, u32, u
     let bpp = color.bytes_per_pixel() as usize;
     let pitch = rw as usize * bpp + pitch_extra;
     let need = if rh == 0 || rw == 0 { 0 } else { pitch * (rh as usize - 1) + rw as usize * bpp };
-    let buflen = offset + need + 5;
+    // for odd buffer offsets the slice handed to the view also holds the padding behind the last row
+    let tail_pad = if offset % 2 == 1 && rh > 0 && rw > 0 { pitch_extra } else { 0 };
+    let buflen = offset + need + tail_pad + 5;
     let mut buf = vec![prefill; buflen];
     let block = match PixelInfo::from(format) { PixelInfo::Block(b) if rw > 0 && rh > 0 => Some(b), _ => None };
     let fixed = match PixelInfo::from(format) { PixelInfo::Fixed { bytes_per_pixel } if rw > 0 && rh > 0 => Some(bytes_per_pixel as usize), _ => None };
     let biplanar = match PixelInfo::from(format) { PixelInfo::BiPlanar(b) if rw > 0 && rh > 0 => Some(b), _ => None };
     if block.is_some() || fixed.is_some() || biplanar.is_some() { dds::verif_hooks::start_block_trace(); }
     let res = {
-        let view = ImageViewMut::new_with(&mut buf[offset..offset + need], pitch, Size::new(rw, rh), color);
+        let view = ImageViewMut::new_with(&mut buf[offset..offset + need + tail_pad], pitch, Size::new(rw, rh), color);
         let Some(view) = view else { println!("IMPL-VIOLATION view refused: {name} {rw}x{rh} pitch {pitch}"); return; };
         if use_full {
             let mut r = data;
@@ -161,6 +163,12 @@ pub fn run(out: &mut Out, tier: &str, seed: u64, _corpus: Option<&str>) {
         // every one of the 12 colour formats once per format (full decode and one unaligned rectangle)
         let (w, h) = ((2 * bw + 3).div_ceil(mx) * mx, (bh + 2).div_ceil(my) * my);
         let data = random_data(fi, w, h, &mut rng);
+        // whole-surface decodes at the format's own colour format (the specialised copy paths) into padded views whose slice
+        // does / does not include the padding behind the last row; a one-row surface as well
+        for (k, (pe, off)) in [(7usize, 1usize), (4, 3), (5, 2)].into_iter().enumerate() {
+            one(out, fi, &data, w, h, (0, 0, w, h), format.channels(), format.precision(), pe, off, if k % 2 == 0 { 0xFF } else { 0 }, true);
+        }
+        if my == 1 { let d1 = random_data(fi, w, 1, &mut rng); one(out, fi, &d1, w, 1, (0, 0, w, 1), format.channels(), format.precision(), 6, 1, 0xFF, true); }
         for ci in 0..12 { let (to, prec) = (CHANNELS[ci / 3], PRECS[ci % 3]);
             one(out, fi, &data, w, h, (0, 0, w, h), to, prec, 0, 0, 0, true);
             one(out, fi, &data, w, h, (1.min(w - 1), 1.min(h - 1), w - 1.min(w - 1), h - 1.min(h - 1)), to, prec, 3, 1, 0xFF, false);
